@@ -10,7 +10,75 @@ import execreplay
 QUICK = ["MC_multi_vars.cfg", "MC_multi_nested.cfg", "MC_multi_ops.cfg", "MC_multi_faults.cfg", "MC_multi_three.cfg", "MC_multi_dirs.cfg", "MC_multi_frag.cfg"]
 
 
+def introspect_job(j):
+    """Requests of different users in flight together: an on_introspection directive hides / fails / suspends depending on the
+    request's context; each answer must be the one the request gets alone on a fresh engine, also for requests sent afterwards.
+    Also: a request refused at variable coercion is answered the same before and after other traffic."""
+    import asyncio
+    import json as _json
+    import base
+    from base import main_loop, unique_schema_name
+    from checks.c08 import INTRO_SDL, INTRO_Q
+    t = base.tartiflette()
+
+    def cook():
+        sn = unique_schema_name("intro15")
+
+        @t.Directive("vis", schema_name=sn)
+        class Vis:
+            async def on_introspection(self, directive_args, next_directive, introspected_element, ctx, info):
+                n = directive_args.get("n")
+                ctx = ctx or {}
+                for _ in range(ctx.get("yield", {}).get(n, 0)):
+                    await asyncio.sleep(0)
+                if n in ctx.get("hide", ()):
+                    return None
+                if n in ctx.get("boom", ()):
+                    raise KeyError("vis")
+                return await next_directive(introspected_element, ctx, info)
+
+        @t.Resolver("Query.e", schema_name=sn)
+        async def re_(parent, args, ctx, info):
+            return args.get("v")
+        return main_loop().run(t.create_engine(INTRO_SDL, schema_name=sn))
+    ENUMQ = "query ($v: E) { e(v: $v) }"
+    contexts = [{}, {"hide": (1, 2, 5), "yield": {1: 1, 5: 2}}, {"hide": (3,)}, {"yield": {1: 2, 4: 1, 5: 3, 3: 1}}, {"boom": (2,), "yield": {2: 1}}, {"hide": (4, 6)}]
+    viol, n = [], 0
+
+    def canon(resp):
+        try:
+            return _json.dumps(resp, sort_keys=True, allow_nan=False, default=repr)
+        except (TypeError, ValueError):
+            return "NOT-JSON %r" % (resp,)
+    alone = {}
+    for k, ctx in enumerate(contexts):
+        alone[k] = canon(main_loop().run(cook().execute(INTRO_Q, context=dict(ctx))))
+    fresh_bad = canon(main_loop().run(cook().execute(ENUMQ, variables={"v": "XX"})))
+    for a in range(len(contexts)):
+        for b in range(len(contexts)):
+            if a == b:
+                continue
+            eng = cook()
+
+            async def both():
+                return await asyncio.gather(eng.execute(INTRO_Q, context=dict(contexts[a])), eng.execute(INTRO_Q, context=dict(contexts[b])))
+            n += 4
+            bad0 = canon(main_loop().run(eng.execute(ENUMQ, variables={"v": "XX"})))
+            ra, rb = main_loop().run(both())
+            later = main_loop().run(eng.execute(INTRO_Q, context=dict(contexts[b])))
+            bad1 = canon(main_loop().run(eng.execute(ENUMQ, variables={"v": "XX"})))
+            for what, got, want in (("first of two requests in flight", canon(ra), alone[a]), ("second of two requests in flight", canon(rb), alone[b]),
+                                    ("the second request again, afterwards", canon(later), alone[b]),
+                                    ("a request refused at variable coercion, first time", bad0, fresh_bad), ("the same refused request after other traffic", bad1, fresh_bad)):
+                if got != want:
+                    genrun.add_viol(viol, ({"kind": "introspection-interference", "what": what, "contexts": _json.dumps([contexts[a], contexts[b]], sort_keys=True, default=list)[:160]},
+                                           {"got": got[:3000], "alone_on_a_fresh_engine": want[:3000]}))
+    return {"job": j, "tlc": [], "evaluations": n, "distinct": [], "samples": [], "violations": viol, "extra": {"introspection_requests_in_flight_together": n}}
+
+
 def job(j):
+    if j.get("kind") == "introspect":
+        return introspect_job(j)
     if j.get("r3"):
         import multitrace
         return multitrace.job(j)
@@ -58,6 +126,7 @@ def main(argv):
         jobs.append({"r3": True, "seed": common.seed() * 1000 + 700 + k, "behaviours": 4000, "max_cases": 150 if thorough else 60,
                      "groups": 600 if thorough else 150,
                      "simcfg": ["MC_faults_simf.cfg", "MC_faults_sim.cfg", "MC_faults_simw.cfg"][k % 3]})
+    jobs.append({"kind": "introspect"})
     results = genrun.run_jobs("checks.c15", "job", jobs)
     bad = genrun.merge(rep, results)
     rc = rep.finish()
